@@ -7,7 +7,7 @@
 namespace c14 {
 std::map<std::string, std::set<std::string>> &table_members_ref() { return table_members(); }
 void run_param_tables() {
-    long reps = vf::tier(3, 12); long idx = 0;
+    long reps = vf::tier(4, 20); long idx = 0;
 #define C14_RUN(TYPE, NAME, DOC, EXPORT, ...) { auto tb = make_table<TYPE, EXPORT>(NAME, DOC, ##__VA_ARGS__); for (long rep = 0; rep < reps; ++rep, ++idx) run_table(tb, idx, (int)rep); }
     using namespace amgcl;
     C14_RUN(solver::cg<B>::params,         "solver::cg",         "amgcl::solver::cg", true)
@@ -38,19 +38,19 @@ void run_param_tables() {
     C14_RUN(coarsening::smoothed_aggr_emin<B>::params,   "coarsening::smoothed_aggr_emin",   "amgcl::coarsening::smoothed_aggr_emin", true)
     C14_RUN(coarsening::ruge_stuben<B>::params,          "coarsening::ruge_stuben",          "amgcl::coarsening::ruge_stuben", true)
     C14_RUN(backend::block_crs<double>::params,          "backend::block_crs",               "amgcl::backend::block_crs", true)
-    C14_RUN(AMG_sa_spai0::params, "amg<smoothed_aggregation,spai0>", "amgcl::amg", true)
-    C14_RUN(AMG_sa_ilut::params,  "amg<smoothed_aggregation,ilut>",  "amgcl::amg", false)
-    C14_RUN(AMG_ag_ilu0::params,  "amg<aggregation,ilu0>",           "amgcl::amg", true)
-    C14_RUN(AMG_em_iluk::params,  "amg<smoothed_aggr_emin,iluk>",    "amgcl::amg", true)
-    C14_RUN(AMG_rs_ilup::params,  "amg<ruge_stuben,ilup>",           "amgcl::amg", true)
-    C14_RUN(AMG_sa_cheb::params,  "amg<smoothed_aggregation,chebyshev>", "amgcl::amg", true)
-    C14_RUN(AMG_ag_gs::params,    "amg<aggregation,gauss_seidel>",   "amgcl::amg", true)
-    C14_RUN(AMG_em_dj::params,    "amg<smoothed_aggr_emin,damped_jacobi>", "amgcl::amg", true)
-    C14_RUN(AMG_rs_spai1::params, "amg<ruge_stuben,spai1>",          "amgcl::amg", true)
-    C14_RUN(MS_amg_cg::params,         "make_solver<amg,cg>",                 "amgcl::make_solver", true)
-    C14_RUN(MS_ilu0_gmres::params,     "make_solver<relaxation(ilu0),gmres>", "amgcl::make_solver", true)
-    C14_RUN(MS_spai0_bicgstab::params, "make_solver<relaxation(spai0),bicgstab>", "amgcl::make_solver", true)
-    C14_RUN(DEFL_amg_cg::params,       "deflated_solver<amg,cg>",             "amgcl::deflated_solver", false)
+    C14_RUN(AMG_sa_spai0::params, "amg<smoothed_aggregation+spai0>", "amgcl::amg", true)
+    C14_RUN(AMG_sa_ilut::params,  "amg<smoothed_aggregation+ilut>",  "amgcl::amg", false)
+    C14_RUN(AMG_ag_ilu0::params,  "amg<aggregation+ilu0>",           "amgcl::amg", true)
+    C14_RUN(AMG_em_iluk::params,  "amg<smoothed_aggr_emin+iluk>",    "amgcl::amg", true)
+    C14_RUN(AMG_rs_ilup::params,  "amg<ruge_stuben+ilup>",           "amgcl::amg", true)
+    C14_RUN(AMG_sa_cheb::params,  "amg<smoothed_aggregation+chebyshev>", "amgcl::amg", true)
+    C14_RUN(AMG_ag_gs::params,    "amg<aggregation+gauss_seidel>",   "amgcl::amg", true)
+    C14_RUN(AMG_em_dj::params,    "amg<smoothed_aggr_emin+damped_jacobi>", "amgcl::amg", true)
+    C14_RUN(AMG_rs_spai1::params, "amg<ruge_stuben+spai1>",          "amgcl::amg", true)
+    C14_RUN(MS_amg_cg::params,         "make_solver<amg+cg>",                 "amgcl::make_solver", true)
+    C14_RUN(MS_ilu0_gmres::params,     "make_solver<relaxation(ilu0)+gmres>", "amgcl::make_solver", true)
+    C14_RUN(MS_spai0_bicgstab::params, "make_solver<relaxation(spai0)+bicgstab>", "amgcl::make_solver", true)
+    C14_RUN(DEFL_amg_cg::params,       "deflated_solver<amg+cg>",             "amgcl::deflated_solver", false)
     C14_RUN(CPR_t::params,    "preconditioner::cpr",     "amgcl::preconditioner::cpr", true)
     C14_RUN(CPRDRS_t::params, "preconditioner::cpr_drs", "amgcl::preconditioner::cpr_drs", true)
     C14_RUN(SCHUR_t::params,  "preconditioner::schur_pressure_correction", "amgcl::preconditioner::schur_pressure_correction", true,
